@@ -36,6 +36,7 @@ exactly the limits whose trait is requested. Fourth round: C19.3 the
 accounting lists exactly {'cell', 'partition'} of the request,
 unconditionally, and every accepted request passed the per-trait accounting.
 Sweep: C19.3 the listing query is exactly cell and partition, the per-trait accounting is always reached, the overall check is called with the computed totals, accounting loops are never cut short.
+Fifth round: C19.3 the partition record is read from the admin store at every request (nothing kept between requests).
 Does NOT decide the sums over arbitrary reservation sets (arithmetic).
 """
 
